@@ -23,6 +23,12 @@ CLAIMS = {
         ref="5 C16"),
 }
 
+CLAIMS["C11"] = dict(
+    text="Lean theorems over all byte strings and all header values: the parser accepts exactly (>= 20 bytes, version nibble 1, type <= 4, extension chain fits) where the chain is specified by an independent inductive relation written from the BEP-29 text, and reports header size 20 + chain size, so unknown extensions never shift the payload boundary; payload present exactly for ST_DATA; serialise-then-parse is the identity for every well-formed header (any SACK length, both extensions) whenever the buffer has room, parse-serialise-parse is the identity on everything the parser accepts, short buffers yield a parseable datagram, too-small buffers an error. Model tied to raw.rs/message.rs by a structural-enumeration + random differential; implementation-side oracle = independent BEP-29 parser in Python.",
+    note="Trusted: Lean kernel, constants translator, harness. 'Never panics' for the Rust parser rests on the model mirroring each guarded index (reads happen after the len<20 check; chain reads use get) and on catch_unwind in every differential case. The clause 'every datagram the library emits parses, has version 1 and the owed connection id' is proved with the connection model (L2) and is listed in the evidence as pending until that layer is claimed.",
+    technique="Lean 4 proof (functional induction on the extension-chain parser, inductive BEP-29 chain spec) + regenerated constants + differential correspondence",
+    ref="5 C11")
+
 PENDING = {
 }
 
